@@ -28,17 +28,17 @@ type Finding struct {
 }
 
 type ReplayFile struct {
-	Property  string             `json:"property"`
-	Harness   string             `json:"harness"`
-	Assertion string             `json:"assertion"`
-	Detail    string             `json:"detail"`
-	Model     map[string]uint64  `json:"model"`
-	Trail     []interp.Decision  `json:"trail"`
-	PathCond  []string           `json:"path_condition,omitempty"`
-	Replayed  string             `json:"replayed"`
-	Native    string             `json:"native,omitempty"`
-	HowTo     string             `json:"how_to_replay"`
-	ModelHex  map[string]string  `json:"model_hex,omitempty"`
+	Property  string            `json:"property"`
+	Harness   string            `json:"harness"`
+	Assertion string            `json:"assertion"`
+	Detail    string            `json:"detail"`
+	Model     map[string]uint64 `json:"model"`
+	Trail     []interp.Decision `json:"trail"`
+	PathCond  []string          `json:"path_condition,omitempty"`
+	Replayed  string            `json:"replayed"`
+	Native    string            `json:"native,omitempty"`
+	HowTo     string            `json:"how_to_replay"`
+	ModelHex  map[string]string `json:"model_hex,omitempty"`
 }
 
 func main() {
@@ -420,26 +420,26 @@ func writeEvidence(prop, tier string, seed int, l *run.Loaded, results []*run.Ha
 		"seed":        seed,
 		"level":       "other",
 		"coverage": map[string]interface{}{
-			"explanation":      "bounded symbolic execution of the repository's own functions (compiled from /repo's working tree to go/ssa on this run) with inputs, pre-states and choice points as SMT variables; every assertion instance is a solver query pc ∧ ¬assertion; unsat on every path = holds for all values within the bounds; sat = counterexample, replayed concretely before being reported",
-			"obligations":      obligations,
-			"discharged":       discharged,
-			"paths":            paths,
-			"ssa_instructions": steps,
-			"queries":          queries,
-			"solver_s":         round(solverS),
-			"load_build_s":     round(loadT.Seconds()),
-			"functions_encoded": fl,
-			"harnesses":        harnesses,
-			"bounds":           bounds,
-			"samples":          samples,
-			"known_findings_hit": known,
+			"explanation":                   "bounded symbolic execution of the repository's own functions (compiled from /repo's working tree to go/ssa on this run) with inputs, pre-states and choice points as SMT variables; every assertion instance is a solver query pc ∧ ¬assertion; unsat on every path = holds for all values within the bounds; sat = counterexample, replayed concretely before being reported",
+			"obligations":                   obligations,
+			"discharged":                    discharged,
+			"paths":                         paths,
+			"ssa_instructions":              steps,
+			"queries":                       queries,
+			"solver_s":                      round(solverS),
+			"load_build_s":                  round(loadT.Seconds()),
+			"functions_encoded":             fl,
+			"harnesses":                     harnesses,
+			"bounds":                        bounds,
+			"samples":                       samples,
+			"known_findings_hit":            known,
 			"traces_validated_against_impl": countSame(validation),
-			"translator_validation": validation,
-			"cross_solver": crossSolver,
-			"inconclusive":     inconcl,
-			"exhaustive":       false,
-			"checker_cmd":      "bin/vcheck --tier " + tier + " " + prop,
-			"trusted_base":     []string{"golang.org/x/tools/go/ssa v0.29.0", "z3 5.1.0 (z3-new)", "/verif/engine (forked go/ssa/interp + SMT layer)", "/verif/harness models listed under assumptions"},
+			"translator_validation":         validation,
+			"cross_solver":                  crossSolver,
+			"inconclusive":                  inconcl,
+			"exhaustive":                    false,
+			"checker_cmd":                   "bin/vcheck --tier " + tier + " " + prop,
+			"trusted_base":                  []string{"golang.org/x/tools/go/ssa v0.29.0", "z3 5.1.0 (z3-new)", "/verif/engine (forked go/ssa/interp + SMT layer)", "/verif/harness models listed under assumptions"},
 		},
 		"assumptions": assumptions,
 		"wall_s":      round(wall.Seconds()),
